@@ -2,8 +2,8 @@
 import random
 
 NAME_ATOMS = [b"foo", b"bar", b"a", b"b", b"z", b"x9", b"9x", b"my-svc", b"a--b", b"with space", b"caf\xc3\xa9",
-              b"\xe2\x82\xac", b"_u", b"A", b"k=v", b"p%q", b"*", b"x_sum", b"x_count", b"x_bucket", b"le", b"quantile"]
-KEY_ATOMS = [b"k", b"key", b"a", b"b", b"env", b"a.b", b"a-b", b"9k", b"t\xc3\xa9", b"le", b"quantile", b"__name__",
+              b"\xe2\x82\xac", b"r\xef\xbf\xbdq", b"_u", b"A", b"k=v", b"p%q", b"*", b"x_sum", b"x_count", b"x_bucket", b"le", b"quantile"]
+KEY_ATOMS = [b"k", b"key", b"a", b"b", b"env", b"a.b", b"a-b", b"9k", b"t\xc3\xa9", b"h\xef\xbf\xbdst", b"le", b"quantile", b"__name__",
              b"-_x", b"K_1", b"with space", b"job", b"instance"]
 VAL_ATOMS = [b"v", b"1", b"prod", b"a=b", b"with space", b"\xf0\x9f\x98\x80", b"x.y", b"-", b"=", b"9", b"v_v", b"%s"]
 TYPES = [b"c", b"g", b"ms", b"h", b"d"]
@@ -133,6 +133,11 @@ def extagg_datum(rnd):
         suffix += b"|@" + rnd.choice(RATES + BAD_RATES[:2])
     if rnd.random() < 0.5:
         suffix += b"|#" + render_tags([tag(rnd) for _ in range(rnd.randint(1, 3))], b":")
+    r = rnd.random()
+    if r < 0.12:
+        suffix += rnd.choice([b"|", b"||", b"|x", b"||@0.5"])         # dangling / empty / surplus fields after the type
+    elif r < 0.16:
+        suffix = t + rnd.choice([b"|", b"||@0.5", b"|@0.5|"])
     return nm, vals, suffix
 
 
